@@ -100,6 +100,7 @@ def binaries():
         "dict_plain": ("plain", [H + "/dict_case.cpp", H + "/rc_main.cpp", H + "/common.cpp"], "-DVERIF_PLAIN", "-lrapidcheck", True),
         "comp_plain": ("plain", [H + "/comp_case.cpp", H + "/rc_main.cpp", H + "/common.cpp"], "-DVERIF_PLAIN -O2 -fno-access-control", "-lrapidcheck", True),
         "sched_rc": ("plain", [H + "/sched_case.cpp", H + "/rc_main.cpp", H + "/common.cpp", S + "/vsched.cpp"], "-DVERIF_PLAIN -DVERIF_SCHED", "-lrapidcheck -ldl -lpthread", True),
+        "native_rc": ("asan", [H + "/sched_case.cpp", H + "/rc_main.cpp", H + "/common.cpp"], "-DVERIF_NATIVE", "-lrapidcheck -lpthread", True),
         "race_rc": ("tsan", [H + "/race_case.cpp", H + "/rc_main.cpp", H + "/common.cpp"], "-DVERIF_TSAN", "-lrapidcheck -lpthread", True),
     }
 
